@@ -26,6 +26,7 @@ def sqrt(eng, st, x, ty):
     if w is None:
         w = eng.fresh("sqrt", z3.RealSort())
         eng.atom_cache[key] = w
+        eng._keep.append(x.e)
     seen = st.user.setdefault("atoms", set())
     if key not in seen:
         seen.add(key)
